@@ -201,6 +201,13 @@ func casesOf(fn *ssa.Function, tag ssa.Value, consts map[string]constant.Value, 
 // casesOfInline is casesOf with an inlining policy for the walker (helpers and
 // functions taken from constant function tables are followed).
 func casesOfInline(fn *ssa.Function, tag ssa.Value, consts map[string]constant.Value, extra map[ssa.Value]constant.Value, hook feHook, inline func(*ssa.Function, int) bool) []caseResult {
+	return casesOfInlineCo(fn, []ssa.Value{tag}, consts, extra, hook, inline)
+}
+
+// casesOfInlineCo: several dispatch values stand for the same quantity (the same parameter seen
+// in several instantiations of a generic helper): all of them are assumed equal to the case's
+// constant.
+func casesOfInlineCo(fn *ssa.Function, tags []ssa.Value, consts map[string]constant.Value, extra map[ssa.Value]constant.Value, hook feHook, inline func(*ssa.Function, int) bool) []caseResult {
 	names := make([]string, 0, len(consts))
 	for n := range consts {
 		names = append(names, n)
@@ -225,8 +232,10 @@ func casesOfInline(fn *ssa.Function, tag ssa.Value, consts map[string]constant.V
 			}
 			return fn
 		}
-		for _, t := range equivLoads(home(tag), tag) {
-			assume[t] = val
+		for _, tag := range tags {
+			for _, t := range equivLoads(home(tag), tag) {
+				assume[t] = val
+			}
 		}
 		for k, v := range extra {
 			for _, t := range equivLoads(home(k), k) {
